@@ -19,13 +19,13 @@ func VH_C19_metaonly() {
 	maxb := v.Param("MAXB", 1)
 	m.Reset()
 	dest := m.Root("dest")
-	var src []*srcEnt
+	var src []*vh_srcEnt
 	add := func(p string, class int) {
 		// metadata is concrete here (symbolic metadata is covered by C07 and C20): the subject is
 		// selection, ids and bytes
-		st := &types.Stat{Path: p, Mode: modeFor(class, 0755), Uid: uint32(len(src) + 1), ModTime: mtimeChoices[len(src)%2]}
-		e := &srcEnt{stat: st}
-		if class == clsFile {
+		st := &types.Stat{Path: p, Mode: vh_modeFor(class, 0755), Uid: uint32(len(src) + 1), ModTime: vh_mtimeChoices[len(src)%2]}
+		e := &vh_srcEnt{stat: st}
+		if class == vh_clsFile {
 			e.data = v.Bytes("data", v.Choose("size", maxb+1))
 			st.Size = int64(len(e.data))
 		}
@@ -34,33 +34,33 @@ func VH_C19_metaonly() {
 	if v.Bool("has-listing-name") {
 		// a source entry that happens to carry the listing's name: a regular file, a symlink or a
 		// directory (never transferred, but it occupies a position in the STAT sequence)
-		cls := []int{clsFile, clsSymlink, clsDir}[v.Choose("class-listing-name", 3)]
+		cls := []int{vh_clsFile, vh_clsSymlink, vh_clsDir}[v.Choose("class-listing-name", 3)]
 		add(metadataPath, cls)
-		if cls == clsSymlink {
+		if cls == vh_clsSymlink {
 			src[len(src)-1].stat.Linkname = "d"
 		}
 		v.Cover("listing-name-entry")
 	}
-	add("d", clsDir)
+	add("d", vh_clsDir)
 	if v.Bool("has-d/f") {
-		add("d/f", clsFile)
+		add("d/f", vh_clsFile)
 	}
 	// "d2": a sibling whose name has the directory name "d" as a string prefix without being inside it
 	switch v.Choose("class-d2", 3) {
 	case 1:
-		add("d2", clsFile)
+		add("d2", vh_clsFile)
 	case 2:
-		add("d2", clsDir)
+		add("d2", vh_clsDir)
 		if v.Bool("has-d2/g") {
-			add("d2/g", clsFile)
+			add("d2/g", vh_clsFile)
 		}
 	}
 	if v.Param("E", 0) != 0 {
 		switch v.Choose("class-e", 3) {
 		case 1:
-			add("e", clsFile)
+			add("e", vh_clsFile)
 		case 2:
-			add("e", clsDir)
+			add("e", vh_clsDir)
 		}
 	}
 	selected := map[string]bool{}
@@ -79,7 +79,7 @@ func VH_C19_metaonly() {
 	}
 
 	ctx := context.Background()
-	rcv, snd := newStreamPair(ctx, 256)
+	rcv, snd := vh_newStreamPair(ctx, 256)
 	var recvErr error
 	done := make(chan struct{})
 	go func() {
@@ -122,7 +122,7 @@ func VH_C19_metaonly() {
 	v.Assert(recvErr == nil, "metadata-only Receive returns success on a legal stream")
 
 	// expected destination: selected entries plus needed ancestors
-	var want []*srcEnt
+	var want []*vh_srcEnt
 	for _, e := range src {
 		p := e.stat.Path
 		if p == metadataPath {
@@ -131,7 +131,7 @@ func VH_C19_metaonly() {
 		keep := selected[p]
 		if !keep {
 			for _, o := range src {
-				if selected[o.stat.Path] && isUnder(o.stat.Path, p) {
+				if selected[o.stat.Path] && vh_isUnder(o.stat.Path, p) {
 					keep = true
 				}
 			}
@@ -170,7 +170,7 @@ func VH_C19_metaonly() {
 					v.Assert(snap[i].Kind == m.KDir, "selected/ancestor directory exists as a directory")
 				} else {
 					v.Assert(snap[i].Kind == m.KFile && string(snap[i].Data) == string(e.data), "selected file holds the bytes of that file")
-					v.Assert(snap[i].Perm == goModeToUnixPerm(e.stat.Mode) && snap[i].Uid == e.stat.Uid && snap[i].Mtime == e.stat.ModTime, "selected file carries the announced metadata")
+					v.Assert(snap[i].Perm == vh_goModeToUnixPerm(e.stat.Mode) && snap[i].Uid == e.stat.Uid && snap[i].Mtime == e.stat.ModTime, "selected file carries the announced metadata")
 				}
 			}
 		}
